@@ -510,6 +510,9 @@ class Merge(Expr):
 
             # Find columns to project on the right
             for col in right.columns:
+                if col in project_right:
+                    # already required by a suffixed column of the left side
+                    continue
                 if col in right_on or col in projection:
                     project_right.append(col)
                 elif f"{col}{right_suffix}" in projection:
